@@ -3,7 +3,9 @@
    embedded/document on every run by Tie/C19.v); spec = the write log (HistProofs.v) and the
    evaluation of a query on the stored JSON payloads (spec_search in Model.v).
    The model is the code after the repairs 964c526 (INTEGER fields accept only numbers with an exact
-   int64 representation) and c876bb2 (unique checks consider every live entry); the only fact still
+   int64 representation), c876bb2 (unique checks consider every live entry), 4461e96 (CREATE INDEX
+   refuses entry keys longer than the store's key length) and 7c93d7c (an over-long range bound is cut
+   to the column length); the only fact still
    handed in from a probe of the real code is s_nz (the float key encoder keeps the sign of zero). *)
 From V Require Import Doc.Model Doc.Facts Doc.RangeProofs Doc.SearchProofs Doc.HistProofs
                       Doc.UniqueProofs Doc.Witness.
@@ -57,11 +59,11 @@ Print Assumptions search_sound_and_complete_refuted_late_field.
 (* What holds: for every collection state in which the row of every live document is the conversion
    of its payload under the current schema (i.e. no field was added after the document was
    written), and -- while the key encoder keeps the sign of zero -- without negative zeros among
-   DOUBLE values / constants and without string constants longer than the column, every search
+   DOUBLE values / constants, every search
    (OR-groups of comparisons, ordering, limit, offset) returns exactly what the same query returns
    on the payloads: same documents, same order, same errors (a constant that is not a value of the
    field's type -- e.g. 0.5 for an INTEGER field -- is an error on both sides).  No proviso on the
-   numbers held by INTEGER fields is needed any more. *)
+   numbers held by INTEGER fields or on the length of string constants is needed any more. *)
 Theorem search_sound_and_complete_partial :
   forall (st : state) (q : query) (off : N),
     rows_agree st -> nz_safe st q ->
@@ -78,9 +80,8 @@ Proof. exact index_independent_refuted. Qed.
 Print Assumptions search_index_independent_refuted.
 
 (* What holds: for all stored rows, queries, pages and ANY two sets of indexes the results are
-   identical, provided no negative zero occurs among the column values and constants and no string
-   constant exceeds the column length (index choice, key-range pruning with AND/OR range merging
-   never drop a matching row). *)
+   identical, provided no negative zero occurs among the column values and constants (index choice,
+   key-range pruning with AND/OR range merging never drop a matching row). *)
 Theorem search_index_independent_partial :
   forall (st : state) (ixs1 ixs2 : list index) (q : query) (off : N),
     nz_safe st q ->
@@ -89,10 +90,10 @@ Proof. exact index_independent_partial. Qed.
 Print Assumptions search_index_independent_partial.
 
 (* ... and with a key encoder that normalises the sign of zero (s_nz = false; the harness probes the
-   real encoder on every run) the negative-zero proviso disappears. *)
+   real encoder on every run) no proviso is left: results never depend on the indexes. *)
 Theorem search_index_independent_when_keys_normalised :
   forall (st : state) (ixs1 ixs2 : list index) (q : query) (off : N),
-    s_nz (st_sch st) = false -> consts_short st q ->
+    s_nz (st_sch st) = false ->
     engine_search (with_indexes st ixs1) q off = engine_search (with_indexes st ixs2) q off.
 Proof. exact index_independent_when_keys_normalised. Qed.
 Print Assumptions search_index_independent_when_keys_normalised.
